@@ -275,7 +275,8 @@ def _rand_path(P, r, scale):
     cur = complex(r.uniform(-1, 1), r.uniform(-1, 1)) * scale
     pts.append(cur)
     for i in range(n):
-        ang += r.choice([1, -1]) * r.uniform(math.radians(8), math.radians(172))
+        ang += r.choice([1, -1]) * (r.uniform(math.radians(8), math.radians(172)) if r.random() > 0.12 else
+                                     math.radians(r.choice([0.1, 0.15, 0.2, 0.24, 0.5, 1.0, 3.0])))      # also barely visible bends
         cur = cur + cmath.rect(r.uniform(0.3, 3) * scale, ang)
         pts.append(cur)
     if closed:
